@@ -40,12 +40,17 @@ def grid_scenario(rng, key, family=None, fault_kinds=("none",), np_choices=(2, 3
         sc = {"family": "circ", "options": workloads.circ_options(rng, orthogonal=True)}
     elif family == "circ-nonorth":
         sc = {"family": "circ", "options": workloads.circ_options(rng, orthogonal=False)}
-    elif family == "tok-nonorth":
-        geom = rng.choice(("cdn", "udn", "ldn"))
+    elif family in ("tok-nonorth", "tok-nonorth-sn"):
+        geom = rng.choice(("cdn", "udn", "ldn") if family == "tok-nonorth" else ("lsn", "usn"))
         sc = {"family": "tok", "geometry": geom,
               "options": workloads.tok_options(geom, orthogonal=False,
                                                y_boundary_guards=rng.choice((0, 0, 1))),
               "npsi": 65, "wall": rng.choice(("rect", "slanted"))}
+        if geom in ("lsn", "usn"):
+            # the example's orthogonal spacings are refused for non-orthogonal single
+            # nulls; hypnotoad's own defaults generate (as in regridsim.base_options)
+            sc["options"].pop("target_all_poloidal_spacing_length")
+            sc["options"].pop("xpoint_poloidal_spacing_length")
     else:
         geom = rng.choice(TOK_ORTH_GEOMS) if family == "tok-orth" else family.split(":")[1]
         sc = {"family": "tok", "geometry": geom,
@@ -74,9 +79,14 @@ def c13_grid_case(verif_seed, index, quick=False):
         fam = "tok:lsn"
     if not quick and index % 16 == 7:
         fam = "tok-nonorth"  # double nulls, non-orthogonal: wall intersections, regrids
+    if index % 12 == 11:
+        # walled non-orthogonal single null: the one parallel map whose tasks (contours
+        # extended to the wall) have unequal sizes
+        fam = "tok-nonorth-sn"
     kind = ("none", "fallback", "none", "exhaust", "timeout")[index % 5]
     sc = grid_scenario(rng, seed, family=fam, fault_kind=kind)
-    if sc["family"] == "tok" and sc["geometry"] in ("lsn", "usn") and (index // 4) % 2 == 0:
+    if sc["family"] == "tok" and sc["geometry"] in ("lsn", "usn") and (index // 4) % 2 == 0 \
+            and fam != "tok-nonorth-sn":
         # the other interpolant: the equilibrium that reaches the workers (pickled with
         # dill) must interpolate exactly as the caller's does
         sc["options"]["psi_interpolation_method"] = "dct"
